@@ -265,6 +265,50 @@ Fixpoint reify_f (fuel : nat) (anc a b : oentry) : reified :=
 Definition reify (anc a b : oentry) : reified :=
   reify_f (S (Nat.max (depth a) (depth b))) anc a b.
 
+(* ---------- the one-endpoint reading of reification, as a specification ---------- *)
+(* "holds tracked content or was synchronized before": a leaf that is not
+   untracked, a genuine directory, or a phantom directory whose ancestor
+   counterpart is a directory or which has a live child *)
+Fixpoint live (anc : oentry) (e : entry) {struct e} : bool :=
+  match e with
+  | EUntracked => false
+  | EFile _ _ | ELink _ | EProblem _ | EDir _ => true
+  | EPhantom c =>
+    is_edir anc
+    || (fix go (l : list (name * entry)) : bool :=
+          match l with
+          | [] => false
+          | (n, x) :: t => live (lookup n (contents anc)) x || go t
+          end) c
+  end.
+
+(* phantom directories become directories when live and untracked content
+   (without their contents) otherwise; everything else is kept *)
+Fixpoint reify_spec (anc : oentry) (e : entry) {struct e} : entry :=
+  let fix go (l : list (name * entry)) : list (name * entry) :=
+    match l with
+    | [] => []
+    | (n, x) :: t => (n, reify_spec (lookup n (contents anc)) x) :: go t
+    end in
+  match e with
+  | EDir c => EDir (go c)
+  | EPhantom c => if live anc e then EDir (go c) else EUntracked
+  | x => x
+  end.
+
+(* the number of directories of a snapshot *)
+Fixpoint dir_count (e : entry) {struct e} : nat :=
+  let fix go (l : list (name * entry)) : nat :=
+    match l with
+    | [] => 0
+    | (_, x) :: t => dir_count x + go t
+    end in
+  match e with
+  | EDir c => S (go c)
+  | EPhantom c => go c
+  | _ => 0
+  end.
+
 (* ---------- concrete patterns for the harness and the witnesses ---------- *)
 Record dpat := {
   dexcl : bool;
@@ -294,18 +338,25 @@ Definition entry_at (snap : entry) (q : rpath) : oentry :=
    (a) files/links synchronized but not in Docker's context, or the converse;
    (b) directories Docker excludes that are synchronized although they hold no
        synchronized content and were not synchronized before (ancestor). *)
-Definition c15_departures (pats : list dpat) (tree : fnode) (anc : oentry) (reified_snap : entry)
-  : list rpath :=
+Definition leaf_departures (pats : list dpat) (tree : fnode) (reified_snap : entry)
+  : list (rpath * entry) :=
   let mine := leaves reified_snap in
   let theirs := docker_leaves dexcl dtext dmatch pats tree in
-  map fst (diff_pe mine theirs) ++ map fst (diff_pe theirs mine)
-  ++ map fst (filter (fun qf =>
+  diff_pe mine theirs ++ diff_pe theirs mine.
+
+Definition dir_departures (pats : list dpat) (tree : fnode) (anc : oentry) (reified_snap : entry)
+  : list rpath :=
+  map fst (filter (fun qf =>
         is_fdir (snd qf)
         && mopm dexcl dmatch pats (fst qf)
         && is_edir (entry_at reified_snap (fst qf))
         && negb (holds_below reified_snap (fst qf))
         && negb (is_edir (match anc with Some a => entry_at a (fst qf) | None => None end)))
       (fnodes [] tree)).
+
+Definition c15_departures (pats : list dpat) (tree : fnode) (anc : oentry) (reified_snap : entry)
+  : list rpath :=
+  map fst (leaf_departures pats tree reified_snap) ++ dir_departures pats tree anc reified_snap.
 
 Definition check_C15 (pats : list dpat) (tree : fnode) (anc : oentry) (reified_snap : entry) : bool :=
   match c15_departures pats tree anc reified_snap with [] => true | _ => false end.
